@@ -159,7 +159,7 @@ func malformClass(err error) string {
 	return "other"
 }
 
-type c03Stats struct{ inputs, calls, trunc, field, extra, skippedBig, huge, dup, reuse int64 }
+type c03Stats struct{ inputs, calls, trunc, field, extra, skippedBig, huge, dup, reuse, negstr int64 }
 
 // entries that never allocate what a length field declares (they skip, copy or print as they read):
 // they are also fed planted lengths far beyond 2^20.
@@ -289,6 +289,26 @@ func c03Run(c C03Case, record bool) (*pbt.Violation, c03Stats) {
 			}
 		}
 	}
+	// ---- string lengths that are negative as signed shorts (0x8000..0xffff) but fully backed by bytes:
+	// the document continues correctly after them, only the sign says "malformed"
+	ns := 0
+	for _, r := range layout {
+		if (r.Kind != rn.KStrLen && r.Kind != rn.KNameLen) || ns >= 2 {
+			continue
+		}
+		ns++
+		old := int(doc[r.Off])<<8 | int(doc[r.Off+1])
+		for _, l := range []int{0x8000, 0xffff, 0x8000 + (len(doc)*977)%0x7fff} {
+			in := append([]byte{}, doc[:r.Off]...)
+			in = append(in, byte(l>>8), byte(l))
+			in = append(in, bytes.Repeat([]byte{'s'}, l)...)
+			in = append(in, doc[r.Off+2+old:]...)
+			st.negstr++
+			if v := try(in, "string-length-negative-but-backed"); v != nil {
+				return v, st
+			}
+		}
+	}
 	// ---- well-formed documents that meet an already filled destination: every key twice
 	// (second occurrence longer), and a second, longer document decoded into the same value
 	grown := growTree(c.Tree)
@@ -382,6 +402,7 @@ func TestC03(t *testing.T) {
 		tot.huge += st.huge
 		tot.dup += st.dup
 		tot.reuse += st.reuse
+		tot.negstr += st.negstr
 		if st.inputs > 0 && tot.inputs%50 < st.inputs {
 			pbt.Ev.Sample(map[string]any{"test": "C03", "tree": c.Tree.String(), "network": c.Network, "extra": c.Extra, "inputs_tried": st.inputs})
 		}
@@ -401,6 +422,7 @@ func TestC03(t *testing.T) {
 	pbt.Ev.LabelN("inputs_huge_planted_length_nonallocating_entries", tot.huge)
 	pbt.Ev.LabelN("inputs_duplicate_keys", tot.dup)
 	pbt.Ev.LabelN("reused_destination_decodes", tot.reuse)
+	pbt.Ev.LabelN("string_lengths_negative_but_backed", tot.negstr)
 	pbt.Ev.LabelN("documents", int64(n))
 }
 
